@@ -56,6 +56,16 @@ ListsG  == { <<E("ok",1), E("ok",2), E("ok",3)>>,
              <<E("ok",3), E("ok",3)>>,                       \* the heavy validator twice
              <<E("ok",3), E("garbage",1), E("wrong",2)>> }
 
+
+\* batch configuration: several accepted changes in ONE block (a membership change followed by a power change), then a
+\* request carried by a single signer or by one signer twice - sub-quorum under the set that results
+BodiesB == { B("add",    4, 0, "a", 0), B("remove", 3, 0, "a", 0),
+             B("update", 2, 2, "b", 0),
+             B("update", 1, 2, "a", 1), B("update", 1, 2, "b", 1) }
+ListsB  == { <<E("ok",1), E("ok",2), E("ok",3)>>,
+             <<E("ok",1)>>,
+             <<E("ok",2), E("ok",2)>> }
+
 \* a smaller body set for random simulation of longer behaviours
 BodiesS == { B("update", 2, 2, "a", 0), B("update", 2, 2, "a", 1), B("update", 2, 0, "b", 0), B("update", 2, 1, "b", 1),
              B("add", 4, 0, "a", 0), B("add", 4, 2, "a", 1), B("add", 4, 0, "b", 0),
